@@ -190,6 +190,11 @@ func runCalciumLockLoss(c *Case, res *Result, cfg lockCfg) {
 				}
 				continue
 			}
+			if live := w.liveWorkloads(); len(live) > 0 {
+				ids = live // (removals of this history may have taken some away)
+			} else {
+				continue
+			}
 			id := ids[i%len(ids)]
 			typ := cluster.WorkloadStop
 			before := len(eng.CancelledOps())
